@@ -1,13 +1,11 @@
-"""C19 -- freeze() encodes a line table that decodes back to the same mapping (DESIGN.md section 4, C19).
+"""C19 -- freeze() encodes a line table that decodes back to the same mapping (DESIGN.md section 4 and 10, C19).
 
-Necessary conditions only (the round trip itself is a value property):
- R1 freeze() reads only attributes that the class's __init__ chain defines
- R2 emission order: inside one mapping entry no (0, line != 0) pair is emitted before the pair that carries the address increment
-    (the decoder attributes a line increment to the *following* address, so such a pair moves lines onto the previous offset)
- R3 every constant byte of an emitted pair is in 0..255; a line component that can be negative is reduced mod 256
- R4 every chunking loop moves its variable toward its exit test
- R5 freeze() sorts a dict table by offset and reaches the encoder for dict and list inputs
- R6 an entry with a negative line delta may be dropped only by a class that serves no version >= 3.6"""
+ R1  freeze() reads only attributes that the class's __init__ chain defines (AST def-use)
+ R5  freeze() hands the encoder the pairs sorted by offset, for dict and list tables (freeze() specialised on concrete offsets, the encoder replaced by a probe)
+ R8  encode -> reference decode is the identity, decided per bucket of (offset gap, line delta) by interval-guided specialisation (xv/linetab.py): no
+     accumulator, helper, loop form or constant name is recognised syntactically
+ R9  freeze discipline (no early return on an own flag, integer fields untouched)
+ R10 the decoder half of the round trip: C05's rules, restated"""
 import ast
 
 from ..report import AnalysisError
@@ -19,65 +17,18 @@ CLASSES = [("xdis.codetype.code15", "Code15"), ("xdis.codetype.code20", "Code2")
            ("xdis.codetype.code310", "Code310")]
 
 
-def const_int(e):
-    if isinstance(e, ast.Constant) and isinstance(e.value, int) and not isinstance(e.value, bool):
-        return e.value
-    if isinstance(e, ast.UnaryOp) and isinstance(e.op, ast.USub) and isinstance(e.operand, ast.Constant) and isinstance(e.operand.value, int):
-        return -e.operand.value
-    return None
-
-
-def emission_sites(fn, acc_names):
-    """ordered [(addr expr, line expr, node, enclosing while tests)] of pairs appended to the accumulator"""
-    sites = []
-    pending = []  # chr()-style single byte appends
-
-    def loops_of(n):
-        out = []
-        p = getattr(n, "_parent", None)
-        while p is not None and p is not fn:
-            if isinstance(p, ast.While):
-                out.append(p)
-            p = getattr(p, "_parent", None)
-        return out
-
-    order = []
-    for n in ast.walk(fn):
-        if isinstance(n, ast.AugAssign) and isinstance(n.op, ast.Add) and isinstance(n.target, ast.Name) and n.target.id in acc_names:
-            order.append(n)
-    order.sort(key=lambda n: (n.lineno, n.col_offset))
-    for n in order:
-        v = n.value
-        if isinstance(v, ast.Call) and isinstance(v.func, ast.Name) and v.func.id in ("bytearray", "bytes") and v.args and isinstance(v.args[0], (ast.List, ast.Tuple)):
-            elts = v.args[0].elts
-            if len(elts) == 2:
-                sites.append((elts[0], elts[1], n, loops_of(n)))
-            else:
-                sites.append((None, None, n, loops_of(n)))
-        elif isinstance(v, ast.Call) and isinstance(v.func, ast.Name) and v.func.id == "chr" and v.args:
-            pending.append((v.args[0], n))
-            if len(pending) == 2:
-                sites.append((pending[0][0], pending[1][0], pending[0][1], loops_of(n)))
-                pending = []
-        else:
-            sites.append((None, None, n, loops_of(n)))
-    return sites
-
-
 def run(rep, tier):
-    rep.explanation = ("AST analysis of the freeze() methods and line-table encoders of the portable code classes: attribute def-use against the __init__ chain, "
-                       "ordered emission sites of (address, line) pairs, constant-range and loop-progress checks, dispatch of dict/list inputs")
+    rep.explanation = ("attribute def-use of freeze() against the __init__ chain (AST); freeze() and the line-table encoders specialised on tables of two or three "
+                       "symbolic entries with declared integer ranges -- interval reasoning decides the encoders' comparisons, undecided ones split the range, so every "
+                       "chunking loop unrolls -- and the explicit byte terms are decoded by CPython's reader of that format over the same interval domain")
     rep.rule("R1", "freeze() reads only attributes defined by the class's __init__ chain")
-    rep.rule("R2", "within one entry no (0, non-zero line) pair is emitted before the pair carrying the address increment")
-    rep.rule("R3", "constant bytes of emitted pairs are in 0..255; possibly-negative line components are reduced mod 256")
-    rep.rule("R4", "every chunking loop changes its variable in the direction of its exit test")
-    rep.rule("R5", "freeze() sorts dict tables by offset and calls the encoder for dict and list inputs")
-    rep.rule("R6", "negative line deltas are dropped only by classes that serve no version >= 3.6")
-    rep.rule("R7", "a class that serves a version >= 3.6 (signed line byte) emits no constant line chunk above 127")
+    rep.rule("R5", "freeze() hands the encoder the table's (offset, line) pairs sorted by offset, for a dict and for a list alike (decided by running freeze() on concrete offsets "
+                   "with symbolic lines)")
     rep.rule("R9", "freeze() never returns early on a flag it assigns itself (replace() copies it) and never rewrites an integer-valued field")
-    rep.rule("R8", "per table entry the emitted address bytes add up to the advance of the previous-offset tracker and the line bytes to that of the previous-line "
-                   "tracker: emitted + residual is invariant over every straight-line segment and one iteration of every chunking loop; a path that skips an entry "
-                   "leaves the trackers alone")
+    rep.rule("R8", "encode, then decode with CPython's own reader of that table format (dis.findlinestarts over co_lnotab with unsigned / signed line bytes, co_lines() of "
+                   "3.10), gives back the mapping: decided per bucket of (offset gap, line delta) -- gaps 1..600, deltas -300..300 -- in which every chunking loop of the encoder "
+                   "unrolls; buckets are found by splitting a range wherever one of the encoder's own comparisons is not decided by it; every emitted byte must lie in 0..255; a "
+                   "loop still running after 300 iterations counts as not terminating; classes that serve no version >= 3.6 may drop an entry whose line decreases, as a whole")
     rep.rule("R10", "the line-start routines that decode what freeze() wrote obey the decoder rules of C05 (R1-R3, R5, R6: lnotab automaton per version, 3.10 co_lines pairs, "
                     "findlinestarts over co_lines, per-table binding), restated")
     from . import c05
@@ -131,447 +82,173 @@ def run(rep, tier):
         missing = sorted(r for r in reads if r not in defined and r not in stores_in_freeze)
         rep.ob("R1", "%s (freeze of %s)" % (fq, cname), "reads-defined-attributes", not missing, expected="attributes set by %s.__init__ chain" % cname, derived=missing,
                where=repo.where(fm, ffn), msg="%s.freeze() reads %s, which no __init__ of %s defines: AttributeError for every object of that class" % (cname, missing, cname))
-        # ---------------------------------------------------------------- R5
-        src = ast.unparse(ffn)
-        tab = "co_linetable" if "co_linetable" in src else "co_lnotab"
-        dict_ok = ("isinstance(self.%s, dict)" % tab) in src and "sorted(" in src and ("key=lambda" in src or ".items()" in src)
-        list_ok = ("isinstance(self.%s, list)" % tab) in src and "self.encode_lineno_tab()" in src
-        sorted_by_offset = False
-        for n in ast.walk(ffn):
-            if isinstance(n, ast.Call) and isinstance(n.func, ast.Name) and n.func.id == "sorted":
-                key = [k.value for k in n.keywords if k.arg == "key"]
-                if not key:
-                    sorted_by_offset = True  # tuples sort by first component
-                elif isinstance(key[0], ast.Lambda) and isinstance(key[0].body, ast.Subscript) and const_int(key[0].body.slice) == 0:
-                    sorted_by_offset = True
-        rep.ob("R5", "%s (freeze of %s)" % (fq, cname), "dict-sorted-by-offset", dict_ok and sorted_by_offset, expected="sorted(zip(keys, values), key=offset)", derived=[dict_ok, sorted_by_offset])
-        rep.ob("R5", "%s (freeze of %s)" % (fq, cname), "list-reaches-encoder", list_ok, expected="isinstance(table, list) -> self.encode_lineno_tab()", derived=list_ok)
-        # ---------------------------------------------------------------- encoder
         eq = repo.method(cq, "encode_lineno_tab")
         if eq is None:
             rep.ob("R5", cq, "has-encoder", False, derived="no encode_lineno_tab()")
             continue
-        em, efn = repo.functions[eq]
         rep.analysed(eq)
         n_enc += 1
-        construct = "%s (encoder of %s)" % (eq, cname)
-        acc = {n.targets[0].id for n in ast.walk(efn) if isinstance(n, ast.Assign) and isinstance(n.targets[0], ast.Name) and isinstance(n.value, ast.Constant)
-               and isinstance(n.value.value, (str, bytes)) and n.value.value in ("", b"")}
-        sites = emission_sites(efn, acc)
-        rep.ob("R2", construct, "emission-sites", len(sites) >= 2, expected="chunk pairs and a final pair", derived=len(sites))
-        # the address-carrying final pair: the last site whose address component is not a constant
-        final = [i for i, s in enumerate(sites) if s[0] is not None and const_int(s[0]) is None]
-        fi = final[-1] if final else None
-        for i, (a, l, node, loops) in enumerate(sites):
-            if a is None:
-                continue
-            ca, cl = const_int(a), const_int(l)
-            where = repo.where(em, node)
-            # R2 (lnotab semantics only; in the 3.10 range format a zero-length pair *precedes* the range it prepares)
-            if cname == "Code310":
-                if ca == 0 and cl not in (None, 0) and fi is not None and i > fi:
-                    rep.ob("R2", construct, "pair(%s,%s)-after-range-pair" % (ast.unparse(a), ast.unparse(l)), False,
-                           expected="zero-length line-delta pairs before the pair that carries the range", derived="emitted at %s after the range pair" % where, where=where,
-                           msg="a (0, %s) pair after the range pair changes the line of the *next* range, not of this one" % ast.unparse(l))
-            elif ca == 0 and (cl is None or cl != 0) and fi is not None and i < fi:
-                rep.ob("R2", construct, "pair(%s,%s)-before-address-pair" % (ast.unparse(a), ast.unparse(l)), False,
-                       expected="line-only continuation pairs after the pair that carries the address increment", derived="emitted at %s before the (address, line) pair" % where,
-                       where=where, msg="a (0, %s) pair emitted before the address-carrying pair makes the decoder add those lines to the *previous* offset" % ast.unparse(l))
-            # R3
-            for comp, cv, nm in ((a, ca, "address"), (l, cl, "line")):
-                if cv is not None:
-                    rep.ob("R3", construct, "const-%s-byte:%s" % (nm, cv), 0 <= cv <= 255, expected="0..255", derived=cv, where=where,
-                           msg="bytearray([.. %d ..]) raises ValueError: a byte must be in range(0, 256)" % cv)
-        # R7: versions >= 3.6 read the line byte as signed: a constant chunk above 127 is a *negative* delta there
-        lo_, hi_ = SERVES[cname]
-        if hi_ >= (3, 6) and cname != "Code310":
-            for i, (a, l, node, loops) in enumerate(sites):
-                if l is None:
-                    continue
-                cl = const_int(l)
-                # a chunk of a loop that runs while the delta is below a negative bound is a negative signed byte (0x80 = -128): R8 accounts for it
-                neg_loop = any(isinstance(w.test, ast.Compare) and isinstance(w.test.ops[0], (ast.Lt, ast.LtE)) for w in loops)
-                if cl is not None and not neg_loop:
-                    rep.ob("R7", construct, "line-chunk:%d-signed-range" % cl, cl <= 127, expected="<= 127 (signed byte, 3.6+)", derived=cl, where=repo.where(em, node),
-                           msg="%s serves versions up to %d.%d whose lnotab line byte is signed: the chunk value %d decodes as %d" % (cname, hi_[0], hi_[1], cl, cl - 256))
-        # a line component that can be negative (no dropping guard) must be reduced
-        drops_negative = False
-        for n in ast.walk(efn):
-            if isinstance(n, ast.If):
-                t = ast.unparse(n.test)
-                if ("line_diff < 0" in t and any(isinstance(x, ast.Continue) for x in n.body)) or ("0 <= line_diff" in t and not n.orelse):
-                    drops_negative = True
-        if fi is not None:
-            l = sites[fi][1]
-            reduced = isinstance(l, ast.BinOp) and isinstance(l.op, (ast.Mod, ast.BitAnd))
-            rep.ob("R3", construct, "line-component-in-byte-range", drops_negative or reduced, expected="reduced mod 256 or negative deltas excluded", derived=ast.unparse(l),
-                   where=repo.where(em, sites[fi][2]))
-        # ---------------------------------------------------------------- R4 loop progress
-        for n in ast.walk(efn):
-            if not isinstance(n, ast.While) or not isinstance(n.test, ast.Compare) or len(n.test.ops) != 1 or not isinstance(n.test.left, ast.Name):
-                continue
-            var = n.test.left.id
-            op = n.test.ops[0]
-            steps = [s for s in ast.walk(n) if isinstance(s, ast.AugAssign) and isinstance(s.target, ast.Name) and s.target.id == var]
-            if not steps:
-                rep.ob("R4", construct, "loop(%s):progress" % ast.unparse(n.test), False, expected="loop variable changes", derived="never assigned", where=repo.where(em, n))
-                continue
-            good = True
-            for s in steps:
-                c = const_int(s.value)
-                if c is None:
-                    good = False
-                    continue
-                delta = -c if isinstance(s.op, ast.Sub) else (c if isinstance(s.op, ast.Add) else None)
-                if delta is None:
-                    good = False
-                elif isinstance(op, (ast.Gt, ast.GtE)):
-                    good = good and delta < 0
-                elif isinstance(op, (ast.Lt, ast.LtE)):
-                    good = good and delta > 0
-            rep.ob("R4", construct, "loop(%s):progress" % ast.unparse(n.test), good, expected="moves toward the exit test", derived=[ast.unparse(s) for s in steps],
-                   where=repo.where(em, n), msg="`while %s` never terminates: its body moves %s away from the exit" % (ast.unparse(n.test), var))
-        # ---------------------------------------------------------------- R6
-        lo, hi = SERVES[cname]
-        rep.ob("R6", construct, "negative-delta-dropped", not (drops_negative and hi >= (3, 6)), expected="kept (signed deltas exist from 3.6)" if hi >= (3, 6) else "may drop",
-               derived="dropped" if drops_negative else "kept",
-               msg="%s serves %d.%d-%d.%d, where line tables have signed deltas, but the encoder silently drops entries whose line number decreases" % (cname, lo[0], lo[1], hi[0], hi[1]))
     rep.floor("line-table encoders analysed", n_enc, 5)
     from ..tables import tables
     T = tables()
-    nseg = 0
+    ncase = 0
     for mod, cname in CLASSES:
-        cq = "%s.%s" % (mod, cname)
-        eq = repo.method(cq, "encode_lineno_tab")
-        em, efn = repo.functions[eq]
-        if cname == "Code310":
-            # 3.10 line table: (length, signed delta) ranges; -128 is reserved for "no line"
-            nseg += conservation_rule(rep, T, mod, cname, "%s (encoder of %s)" % (eq, cname), repo.where(em, efn), signed_lines=True, ranges=True, min_signed=-127)
-            continue
-        nseg += conservation_rule(rep, T, mod, cname, "%s (encoder of %s)" % (eq, cname), repo.where(em, efn), signed_lines=SERVES[cname][1] >= (3, 6))
-    rep.floor("conservation checks (segments and loop iterations)", nseg, 12)
+        ncase += freeze_dispatch_rule(rep, T, mod, cname)
+        ncase += roundtrip_rule(rep, T, repo, mod, cname)
+    rep.floor("bucketed specialisations of the encoders", ncase, 150)
     freeze_discipline(rep, repo, "R9")
     rep.assumptions = ["the class -> served-versions table SERVES in rules/c19.py mirrors codeType2Portable's selection (decided by C01/C16)",
                        "the round trip itself and the 3.10 range semantics of Code310's encoder are value properties and are not decided"]
 
 
-# ====================================================================== R8: conservation (specialiser based)
-class Unparsed(Exception):
-    pass
+# ====================================================================== R5 / R8 decided on bucketed specialisations (xv/linetab.py)
+def _cls(T, mod, cname):
+    from ..fold import ClassRef
+    C = T.F.load(mod).ns.get(cname)
+    if not isinstance(C, ClassRef):
+        raise AnalysisError("anchor vanished: %s.%s" % (mod, cname))
+    return C
 
 
-def _bytes_of(x):
-    """the byte terms appended by one piece, as a list of items: term | ('rep', [items], count)"""
-    from ..sve import Op, Sym
-    if isinstance(x, (bytes, bytearray)):
-        return list(x)
-    if isinstance(x, str):
-        return [ord(c) for c in x]
-    if isinstance(x, Op) and x.op == "bytesof":
-        return list(x.args)
-    if isinstance(x, Op) and x.op == "call" and x.args and x.args[0] in ("chr", "unichr") and len(x.args) == 2:
-        return [x.args[1]]
-    if isinstance(x, Op) and x.op == "call" and x.args and x.args[0] in ("bytearray", "bytes") and len(x.args) == 2:
-        return _bytes_of(x.args[1])
-    if isinstance(x, (list, tuple)):
-        return list(x)
-    if isinstance(x, Op) and x.op == "Mult" and len(x.args) == 2:
-        a, b = x.args
-        for seq, k in ((a, b), (b, a)):
-            try:
-                inner = _bytes_of(seq)
-            except Unparsed:
-                continue
-            return [("rep", inner, k)]
-    if isinstance(x, Op) and x.op == "concat":
-        out = []
-        for a in x.args:
-            out.extend(_bytes_of(a))
-        return out
-    raise Unparsed("piece %r" % (x,))
+def freeze_dispatch_rule(rep, T, mod, cname):
+    """R5: freeze() is run on a dict and on a list with concrete offsets (out of order in the dict) and symbolic lines; the encoder is replaced by a probe that
+    records the table it is handed."""
+    from ..fold import FuncRef, Instance
+    from ..sve import Spec, Sym, show
+    C = _cls(T, mod, cname)
+    fz = C.lookup("freeze")
+    tab = "co_linetable" if cname == "Code310" else "co_lnotab"
+    construct = "%s (freeze of %s)" % (fz.qualname if isinstance(fz, FuncRef) else "?", cname)
+    if not isinstance(fz, FuncRef):
+        rep.ob("R5", "%s.%s" % (mod, cname), "has-freeze", False, derived="no freeze()")
+        return 0
+    La, Lb, Lc = Sym("La", "int"), Sym("Lb", "int"), Sym("Lc", "int")
+    n = 0
+    for kind, table, want in (("dict", {40: La, 0: Lb, 7: Lc}, [(0, Lb), (7, Lc), (40, La)]), ("list", [(0, Lb), (7, Lc), (40, La)], [(0, Lb), (7, Lc), (40, La)])):
+        seen = []
+        me = Instance(C)
+
+        def hook(spec, name, fv, args, kw, node, seen=seen, me=me):
+            if name.endswith(".encode_lineno_tab"):
+                seen.append(me.attrs.get(tab))
+                return None
+            if name.endswith(".check"):
+                return None
+            return NotImplemented
+        for fld in ("co_consts", "co_names", "co_varnames", "co_freevars", "co_cellvars"):
+            me.attrs[fld] = ()
+        me.attrs.update({tab: table, "co_firstlineno": Sym("first", "int"), "co_code": b"", "co_filename": "f", "co_name": "n", "co_argcount": 0, "co_nlocals": 0, "co_stacksize": 0,
+                         "co_flags": 0, "co_kwonlyargcount": 0, "co_posonlyargcount": 0, "co_exceptiontable": b"", "co_qualname": "n"})
+        sp = Spec(T.F, hooks=[hook])
+        why = None
+        try:
+            sp.run(fz, [me])
+        except Exception as ex:
+            why = "not evaluable: %s" % ex
+        got = seen[0] if seen else None
+        ok = len(seen) == 1 and isinstance(got, (list, tuple)) and [(a, repr(b)) for a, b in (tuple(x) for x in got)] == [(a, repr(b)) for a, b in want]
+        n += 1
+        rep.ob("R5", construct, "%s-reaches-encoder-sorted-by-offset" % kind, ok, expected="encode_lineno_tab() sees [(0, Lb), (7, Lc), (40, La)]",
+               derived=why or ([show(x)[:40] for x in got] if isinstance(got, (list, tuple)) else ("encoder called %d times; table %s" % (len(seen), show(got)[:60]))),
+               msg="%s.freeze() given a %s table does not hand the encoder the (offset, line) pairs in offset order" % (cname, kind))
+    return n
 
 
-def _pieces(term, base):
-    """byte items appended to the accumulator `base` (a Sym) in `term`"""
-    from ..sve import Op
-    if repr(term) == repr(base):
-        return []
-    if isinstance(term, Op) and term.op == "concat":
-        head, rest = term.args[0], term.args[1:]
-        out = _pieces(head, base)
-        for r in rest:
-            out.extend(_bytes_of(r))
-        return out
-    raise Unparsed("accumulator %r is not %r plus appended pieces" % (term, base))
-
-
-def _signed(x):
-    """value of a line byte read as a signed byte (3.6+ lnotab): constants >= 128 wrap; `v & 0xFF` stands for v (|v| <= 128 after the chunk loops)"""
-    from ..sve import Op
-    if isinstance(x, int) and not isinstance(x, bool):
-        return x - 256 if x >= 128 else x
-    if isinstance(x, Op) and x.op == "bits" and x.args[1] == 0 and x.args[2] == 8:
-        return x.args[0]
-    return x
-
-
-def _sums(items, signed_lines=False):
-    """(sum of even-position bytes, sum of odd-position bytes) as terms"""
-    from ..sve import add, mul
-    if signed_lines:
-        conv, pos_ = [], 0
-        for it in items:
-            if isinstance(it, tuple) and it and it[0] == "rep":
-                conv.append(("rep", [(_signed(x) if (pos_ + i) % 2 else x) for i, x in enumerate(it[1])], it[2]))
-            else:
-                conv.append(_signed(it) if pos_ % 2 else it)
-                pos_ += 1
-        items = conv
-    tot = [0, 0]
-    pos = 0
-    for it in items:
-        if isinstance(it, tuple) and it and it[0] == "rep":
-            inner, k = it[1], it[2]
-            if len(inner) % 2 or any(isinstance(x, tuple) for x in inner):
-                raise Unparsed("repetition of an odd-length piece")
-            sa, sl = 0, 0
-            for i, x in enumerate(inner):
-                if (pos + i) % 2 == 0:
-                    sa = add(sa, x)
-                else:
-                    sl = add(sl, x)
-            tot[0] = add(tot[0], mul(sa, k))
-            tot[1] = add(tot[1], mul(sl, k))
-        else:
-            tot[pos % 2] = add(tot[pos % 2], it)
-            pos += 1
-    return tot[0], tot[1]
-
-
-def _cases(term):
-    """[(condition list, term)] of a possibly guarded accumulator"""
-    from ..sve import Guard
-    if isinstance(term, Guard):
-        return [([term.cond] + c, t) for c, t in _cases(term.a)] + [([("not", term.cond)] + c, t) for c, t in _cases(term.b)]
-    return [([], term)]
-
-
-def _resolve(t, cond):
-    """specialise a term to a case: guards whose condition is decided by `cond` are replaced by the chosen branch"""
-    from ..sve import Guard, Lin, add, mul
-    true = {repr(c) for c in cond if not isinstance(c, tuple)}
-    false = {repr(c[1]) for c in cond if isinstance(c, tuple)}
-    if isinstance(t, Guard):
-        r = repr(t.cond)
-        if r in true:
-            return _resolve(t.a, cond)
-        if r in false:
-            return _resolve(t.b, cond)
-        return t
-    if isinstance(t, Lin):
-        out = t.const
-        for a, c in t.terms.items():
-            out = add(out, mul(_resolve(a, cond), c))
-        return out
-    return t
-
-
-def _zero(t):
-    return (isinstance(t, int) and not isinstance(t, bool) and t == 0) or repr(t) == "0"
-
-
-def conservation_rule(rep, T, mod, cname, construct, where, signed_lines=False, ranges=False, min_signed=-128):
-    """R8.  Per table entry the address bytes emitted add up to the advance of the previous-offset tracker and the line bytes to
-    the advance of the previous-line tracker.  Decided as an invariant: emitted + residual is unchanged by every straight-line
-    segment and by one iteration of every chunking loop (terms from the specialiser's one-iteration summaries)."""
-    from ..fold import ClassRef, FuncRef, Instance
-    from ..sve import Cont, Fall, Op, Spec, Sym, add, leaves, show
-    F = T.F
-    C = F.load(mod).ns.get(cname)
-    f = C.lookup("encode_lineno_tab") if isinstance(C, ClassRef) else None
+def roundtrip_rule(rep, T, repo, mod, cname):
+    """R8 (see the rule text and xv/linetab.py)."""
+    from ..fold import FuncRef, Instance
+    from ..linetab import Undecodable, bucketed, flatten, ref_linetable310, ref_lnotab, same
+    from ..sve import Op, Sym, add, show
+    C = _cls(T, mod, cname)
+    f = C.lookup("encode_lineno_tab")
     if not isinstance(f, FuncRef):
         raise AnalysisError("anchor vanished: %s.%s.encode_lineno_tab" % (mod, cname))
-    me = Instance(C)
-    me.attrs.update(co_lnotab=Sym("table", "list"), co_linetable=Sym("table", "list"), co_firstlineno=Sym("first", "int"), co_code=Sym("cocode", "bytes"))
-    sp = Spec(F)
-    sp.run(f, [me])
-    outer = [e.args[3] for e in sp.effects if e.kind == "loop" and show(e.args[3].cond).startswith("iter-more(")]
-    if len(outer) != 1:
-        raise AnalysisError("%s: expected one loop over the table, found %d" % (construct, len(outer)))
-    L0 = outer[0]
-    inner = [e.args[3] for e in L0.effects if e.kind == "loop"]
-    if ranges:
-        # 3.10 ranges: the loop walks (entry, next entry) pairs; an entry's range ends where the next one starts
-        elem, nxt = Sym(L0.tag + ".0:elem"), Sym(L0.tag + ".1:elem")
+    construct = "%s (encoder of %s)" % (f.qualname, cname)
+    where = "%s:%d" % (mod.replace(".", "/") + ".py", f.node.lineno)
+    lo_v, hi_v = SERVES[cname]
+    is310 = cname == "Code310"
+    tab = "co_linetable" if is310 else "co_lnotab"
+    Fi, D, E, D1, E1, D2, D0 = (Sym(n_, "int") for n_ in ("F", "D", "E", "D1", "E1", "D2", "D0"))
+    cocode = Sym("cocode", "bytes")
+    # decoders the encoded table must satisfy: unsigned line bytes before 3.6, signed from 3.6
+    decoders = []
+    if is310:
+        decoders = ["3.10"]
     else:
-        elem, nxt = Sym(L0.tag + ":elem"), None
-    item0, item1 = repr(Op("item", elem, 0)), repr(Op("item", elem, 1))
-    lv = [(g, l) for g, l in leaves(L0.out) if isinstance(l, (Fall, Cont))]
-    if not lv:
-        raise AnalysisError("%s: the table loop has no continuing path" % construct)
+        if lo_v < (3, 6):
+            decoders.append("unsigned")
+        if hi_v >= (3, 6):
+            decoders.append("signed")
+    shapes = {
+        "two-entries": ([(0, Fi), (D, add(Fi, E))], D, {"D": (1, 600)}),
+        "three-entries": ([(0, Fi), (D1, add(Fi, E1)), (add(D1, D), add(add(Fi, E1), E))], add(D1, D), {"D": (1, 600), "D1": (1, 255), "E1": (1, 127)}),
+    }
+    # an entry that repeats the line of the one before it starts no new line for any reader, but its offset gap must still be accounted for
+    shapes["repeated-line-then-new-line"] = ([(0, Fi), (D1, Fi), (add(D1, D), add(Fi, E))], add(D1, D), {"D": (1, 600), "D1": (1, 255)})
+    if is310:
+        shapes["first-entry-after-offset-0"] = ([(D0, add(Fi, E))], D0, {"D0": (1, 600)})
+    ncase = 0
+    for sname, (table, last_off, base_ranges) in sorted(shapes.items()):
+        for sign, erange in (("increasing", (1, 300)), ("decreasing", (-300, -1))):
+            ranges = dict(base_ranges)
+            ranges["E"] = erange
+            assume = {}
+            if is310:
+                ranges["D2"] = (1, 300)
+                assume[repr(Op("len", cocode))] = add(last_off, D2)
 
-    def head(n):
-        return Sym("%s:%s" % (L0.tag, n))
-    problems = []
-    nchecks = 0
-    rl_seen = None
-    for g, l in lv:
-        env = l.env
-        accs = [n for n, v in env.items() if isinstance(n, str) and not n.startswith("__") and ("concat" in show(v) or "co_l" in n) and n in L0.pre and
-                (isinstance(L0.pre[n], (str, bytes, bytearray)) or "b''" in show(L0.pre[n])) and repr(v) != repr(L0.pre[n])]
-        if len(accs) != 1:
-            raise AnalysisError("%s: accumulator not identified (%s)" % (construct, accs))
-        acc = accs[0]
-        pa = [n for n, v in env.items() if isinstance(n, str) and n in L0.pre and repr(v) == item0 and n not in ("offset",)]
-        pl = [n for n, v in env.items() if isinstance(n, str) and n in L0.pre and repr(v) == item1]
-        if ranges and pl:
-            pa = ["<next start - this start>"]
-        path = " and ".join(_notag(show(x)) for x in g if not (isinstance(x, Op) and x.op == "in-loop")) or "main path"
-        if not pa or not pl:
-            # a path that leaves the trackers alone must emit nothing (the entry is skipped as a whole)
-            for cond, term in _cases(env[acc]):
-                try:
-                    items = _pieces(term, head(acc)) if not inner or "after-" not in show(term) else None
-                except Unparsed:
-                    items = None
-                unchanged = all(repr(env.get(n)) == repr(head(n)) or repr(env.get(n)) == repr(L0.pre.get(n)) for n in L0.pre if isinstance(n, str) and n.startswith("prev"))
-                nchecks += 1
-                if items or not unchanged:
-                    problems.append(("skip-path", path, "emits %s while the trackers %s" % (items, "stay" if unchanged else "move")))
-            continue
-        Ta = add(Op("item", nxt, 0), Op("item", elem, 0), -1) if ranges else add(env[pa[0]], head(pa[0]), -1)
-        Tl = add(env[pl[0]], head(pl[0]), -1)
-        # checkpoints: (base accumulator symbol, env at the end of the segment, accumulator term at the end of the segment)
-        segs = []
-        base = head(acc)
-        for ls in inner:
-            segs.append((base, ls.pre, ls.pre.get(acc), ls))
-            base = Sym("after-%s:%s" % (ls.tag, acc))
-        segs.append((base, env, env[acc], None))
-        ra = rl = None
-        try:
-            for si, (b, e_end_raw, acc_end, ls) in enumerate(segs):
-                if rl is not None:
-                    rl_seen = rl
-                for cond, term in _cases(acc_end):
-                    sa, sl = _sums(_pieces(term, b), signed_lines)
-                    nchecks += 1
-                    e_end = {n: _resolve(v, cond) for n, v in e_end_raw.items() if isinstance(n, str)}
-                    cdesc = (" when " + " and ".join(_notag(show(c)) if not isinstance(c, tuple) else "not(%s)" % _notag(show(c[1])) for c in cond)) if cond else ""
-                    if si == 0:
-                        # residuals: the variables that, with what was emitted so far, make up the entry's deltas
-                        cand_a = [n for n, v in e_end.items() if isinstance(n, str) and not n.startswith("__") and n != acc and _zero(add(add(sa, v), Ta, -1))]
-                        cand_l = [n for n, v in e_end.items() if isinstance(n, str) and not n.startswith("__") and n != acc and _zero(add(add(sl, v), Tl, -1))]
-                        cand_a = [n for n in cand_a if n not in (pa[0], "offset")] or cand_a
-                        cand_l = [n for n in cand_l if n not in (pl[0], "line_number")] or cand_l
-                        if ls is None:
-                            # no chunking loop at all: everything must have been emitted in this one segment
-                            if not _zero(add(sa, Ta, -1)):
-                                problems.append(("address", path + cdesc, "emitted address bytes sum to %s, the entry advances by %s" % (show(sa), show(Ta))))
-                            if not _zero(add(sl, Tl, -1)):
-                                problems.append(("line", path + cdesc, "emitted line bytes sum to %s, the entry advances by %s" % (show(sl), show(Tl))))
-                            continue
-                        if not cand_a:
-                            problems.append(("address", path + cdesc, "before the first chunking loop %s was emitted and no variable holds the rest of %s" % (show(sa), show(Ta))))
-                        if not cand_l:
-                            problems.append(("line", path + cdesc, "before the first chunking loop %s was emitted and no variable holds the rest of %s" % (show(sl), show(Tl))))
-                        if not cand_a or not cand_l:
-                            raise StopIteration
-                        ra, rl = cand_a[0], cand_l[0]
-                    else:
-                        prev_ls = segs[si - 1][3]
-                        start_a = Sym("after-%s:%s" % (prev_ls.tag, ra)) if _modified(prev_ls, ra) else segs[si - 1][1].get(ra)
-                        start_l = Sym("after-%s:%s" % (prev_ls.tag, rl)) if _modified(prev_ls, rl) else segs[si - 1][1].get(rl)
-                        if ls is None:
-                            # last segment: what is emitted must be exactly what is left
-                            if not _zero(add(sa, start_a, -1)):
-                                problems.append(("address", path + cdesc, "after the loops %s is left but %s is emitted" % (show(start_a), show(sa))))
-                            if not _zero(add(sl, start_l, -1)):
-                                problems.append(("line", path + cdesc, "after the loops %s is left but %s is emitted" % (show(start_l), show(sl))))
+            def make():
+                me = Instance(C)
+                me.attrs.update({tab: [tuple(x) for x in table], "co_firstlineno": Fi, "co_code": cocode})
+                return me
+            key = "roundtrip:%s:%s-lines" % (sname, sign)
+
+            def check(rg, sp, result, table=table, last_off=last_off, sign=sign):
+                """reference decode of one bucket's encoded table; returns the list of disagreements (NeedSplit propagates to the driver)"""
+                out_ = []
+                desc = ", ".join("%s in %d..%d" % (k, v[0], v[1]) for k, v in sorted(rg.items()) if k in ("D", "E", "D0", "D2"))
+                if sp.unroll_overflow:
+                    return ["%s: `while %s` still running after 300 iterations" % (desc, sp.unroll_overflow[0])]
+                mapping = [(a_, b_) for i_, (a_, b_) in enumerate(table) if i_ == 0 or repr(b_) != repr(table[i_ - 1][1])]
+                for dec in decoders:
+                    want = list(mapping)
+                    if dec == "unsigned" and sign == "decreasing":
+                        if hi_v >= (3, 6):
+                            continue  # a decreasing line cannot be expressed for the unsigned readers; the signed ones are checked
+                        want = mapping[:-1]  # may be dropped, but as a whole: everything before it must still decode
+                    try:
+                        bts = []
+                        flatten(result, bts, sp)
+                        if dec == "3.10":
+                            got, end = ref_linetable310(bts, Fi, sp)
+                            if not same(end, add(last_off, D2), sp):
+                                out_.append("%s: the ranges end at %s, the code is %s bytes long" % (desc, show(end), show(add(last_off, D2))))
+                                continue
                         else:
-                            if not _zero(add(add(sa, e_end.get(ra)), start_a, -1)):
-                                problems.append(("address", path + cdesc, "between loops: emitted %s, residual goes %s -> %s" % (show(sa), show(start_a), show(e_end.get(ra)))))
-                            if not _zero(add(add(sl, e_end.get(rl)), start_l, -1)):
-                                problems.append(("line", path + cdesc, "between loops: emitted %s, residual goes %s -> %s" % (show(sl), show(start_l), show(e_end.get(rl)))))
-                if ls is not None and ra is not None:
-                    # one iteration of the chunking loop keeps emitted + residual constant
-                    hb = Sym("%s:%s" % (ls.tag, acc))
-                    for g2, l2 in leaves(ls.out):
-                        if not isinstance(l2, (Fall, Cont)):
-                            continue
-                        for cond, term in _cases(l2.env[acc]):
-                            sa, sl = _sums(_pieces(term, hb), signed_lines)
-                            nchecks += 1
-                            ha = Sym("%s:%s" % (ls.tag, ra)) if _modified(ls, ra) else ls.pre.get(ra)
-                            hl = Sym("%s:%s" % (ls.tag, rl)) if _modified(ls, rl) else ls.pre.get(rl)
-                            da = add(add(sa, l2.env.get(ra)), ha, -1)
-                            dl = add(add(sl, l2.env.get(rl)), hl, -1)
-                            lname = "loop(%s)" % _notag(show(ls.cond))[:60]
-                            if not _zero(da):
-                                problems.append(("address", lname, "one iteration emits address bytes %s while %s goes %s -> %s" % (show(sa), ra, show(ha), show(l2.env.get(ra)))))
-                            if not _zero(dl):
-                                problems.append(("line", lname, "one iteration emits line bytes %s while %s goes %s -> %s" % (show(sl), rl, show(hl), show(l2.env.get(rl)))))
-        except StopIteration:
-            pass
-        except Unparsed as ex:
-            raise AnalysisError("%s: emission idiom outside the supported subset: %s" % (construct, ex))
-    # a line byte written as `v & 0xFF` stands for v only inside the signed-byte range: the exit tests of the chunking loops must establish it
-    if signed_lines:
-        from ..sve import Lin
-        uses_mask = False
-        for g, l in lv:
-            for n_, v_ in l.env.items():
-                if isinstance(n_, str) and "bits(" in show(v_) and ", 0, 8)" in show(v_) and "concat" in show(v_):
-                    uses_mask = True
-        if uses_mask:
-            ub, lb = None, None
-            for ls in inner:
-                c = ls.cond
-                if isinstance(c, Op) and c.op in ("GtE", "Gt", "Lt", "LtE") and isinstance(c.args[1], int) and isinstance(c.args[0], Sym) and \
-                        (rl_seen is None or c.args[0].name.endswith(":" + rl_seen)):
-                    k_ = c.args[1]
-                    if c.op == "GtE":
-                        ub = k_ - 1 if ub is None else min(ub, k_ - 1)
-                    elif c.op == "Gt":
-                        ub = k_ if ub is None else min(ub, k_)
-                    elif c.op == "Lt":
-                        lb = k_ if lb is None else max(lb, k_)
-                    elif c.op == "LtE":
-                        lb = k_ + 1 if lb is None else max(lb, k_ + 1)
-            okr = ub is not None and ub <= 127 and lb is not None and lb >= min_signed
-            nchecks += 1
-            if not okr:
-                problems.append(("line", "final pair", "the line byte is written as v & 0xFF but the chunking loops only establish %s <= v <= %s; a signed byte holds %d..127" % (lb, ub, min_signed)))
-    seen = set()
-    for kind, pth, what in problems:
-        key = _notag("conservation:%s:%s" % (kind, pth))
-        if key in seen:
-            continue
-        seen.add(key)
-        rep.ob("R8", construct, key[:150], False, expected="bytes emitted for an entry add up to the entry's offset / line advance", derived=what, where=where,
-               msg="%s bytes of the encoded table do not add up to the mapping's deltas (%s): every later entry decodes to a wrong %s" % (
-                   kind, what, "offset" if kind == "address" else "line"))
-    if not problems:
-        rep.ob("R8", construct, "conservation", True, derived="%d segment / iteration checks" % nchecks)
-    return nchecks
+                            got = ref_lnotab(bts, Fi, dec == "signed", sp)
+                    except Undecodable as ex:
+                        out_.append("%s (%s reader): %s" % (desc, dec, ex))
+                        continue
+                    if len(got) != len(want) or not all(same(g[0], w[0], sp) and same(g[1], w[1], sp) for g, w in zip(got, want)):
+                        out_.append("%s (%s reader): table %s decodes to %s, the mapping is %s" % (
+                            desc, dec, [show(x) for x in bts][:12], [(show(a_), show(b_)) for a_, b_ in got][:4], [(show(a_), show(b_)) for a_, b_ in want][:4]))
+                return out_
+            try:
+                cases, runs = bucketed(T.F, f, make, ranges, tab, max_cases=1500, extra_assume=assume, check=check)
+            except Undecodable as ex:
+                rep.ob("R8", construct, key, False, expected="every comparison of the encoder is decided inside some bucket", derived=str(ex)[:200], where=where,
+                       msg="the %s encoder cannot be specialised per bucket: %s" % (cname, ex))
+                continue
+            except Exception as ex:
+                raise AnalysisError("%s: specialisation failed (%s: %s)" % (construct, type(ex).__name__, ex))
+            ncase += runs
+            bad = [x for c_ in cases for x in c_[3]]
+            rep.ob("R8", construct, key, not bad, expected="decoding the encoded table gives the mapping in every bucket (%d buckets, readers: %s)" % (len(cases), ", ".join(decoders)),
+                   derived=bad[:3] or "%d buckets agree" % len(cases), where=where,
+                   msg="%s.encode_lineno_tab(): %s" % (cname, "; ".join(bad[:2])))
+    return ncase
 
 
-def _notag(text):
-    """loop tags carry source line numbers: keep them out of obligation keys"""
-    import re
-    return re.sub(r"(after-)?loop\d+(\.\d+)?:", "", text)
-
-
-def _modified(ls, name):
-    from ..sve import Cont, Fall, leaves
-    for g, l in leaves(ls.out):
-        if isinstance(l, (Fall, Cont)) and name in l.env and repr(l.env[name]) != repr(ls.pre.get(name)):
-            return True
-    return False
-
-
-
-# ====================================================================== freeze() discipline (C19-R9, shared with C16-R4)
 INT_FIELDS = {"co_flags", "co_argcount", "co_posonlyargcount", "co_kwonlyargcount", "co_nlocals", "co_stacksize", "co_firstlineno"}
 
 
